@@ -152,6 +152,14 @@ func heldVerdict(ctx *ev.Ctx, prop string) {
 	}
 }
 
+// armCall / disarmCall bracket single calls under test that are bounded by contract. The
+// processor-time bound on them is enforced from outside, by the controller (which watches the
+// worker's CPU time against the progress of its journal): a monitor goroutine with a ticker
+// in here would keep the Go runtime from reporting "all goroutines are asleep - deadlock!",
+// which is itself one of the monitors.
+func armCall()    {}
+func disarmCall() {}
+
 // memMonitor enforces a resource bound on the calls under test: a traversal
 // that makes the live heap grow beyond the cap (orders of magnitude above any
 // input this worker handles) is not "bounded". The verdict is the byte count,
